@@ -15,7 +15,7 @@ import Proofs.Lemmas.ForkChoiceChain
   Invariant `J pr q k` for the state `q` after the indices `≥ k` were processed (`pr` = the array before the
   pass; `leads`, `beats`, `fpar` are those of `pr`, the pass keeps them, `Frame`):
   1. `nl`: every node `i ≥ k` judges itself correctly, `q.nodeLeads n = some (leads pr i)`;
-  2. `par`: for every parent `p` with node `n` (`PInv`):
+  2. `par`: for every parent `p` with node `n` (`ParInv`):
      * `FreshOK`: an incumbent `b ≥ k` (installed/refreshed during this pass) leads and
        `n.bestDesc = (node b).bestDesc.getD b`;
      * `GoodC` for every processed leading child `c ≥ k` of `p`: the incumbent is `≥ k` and is `c` or beats `c`,
@@ -292,7 +292,7 @@ def GoodC (pr : PA) (k p : Nat) (n : Node) (c : Nat) : Prop :=
   (∃ b' : Nat, b' < k ∧ fpar pr.nodes b' = some p ∧ leads pr b' = true ∧ beats pr.nodes b' c)
 
 /-- the invariant for the parent `p` with node `n` -/
-def PInv (pr q : PA) (k p : Nat) (n : Node) : Prop :=
+def ParInv (pr q : PA) (k p : Nat) (n : Node) : Prop :=
   FreshOK pr q k n ∧
   ∀ c : Nat, fpar pr.nodes c = some p → k ≤ c → leads pr c = true → GoodC pr k p n c
 
@@ -303,11 +303,11 @@ theorem goodC_of_incumbent {pr : PA} {k p : Nat} {n : Node} {c b : Nat} (hb : n.
   · exact Or.inr ⟨b, by omega, hbp, hl, hbeat⟩
 
 /-- the parent keeps its links (also: node `k` is not a child of `p`) -/
-theorem pinv_keep {pr q : PA} {k p : Nat} {n : Node} (hI : PInv pr q (k + 1) p n)
+theorem parInv_keep {pr q : PA} {k p : Nat} {n : Node} (hI : ParInv pr q (k + 1) p n)
     (hne : n.bestChild ≠ some k)
     (hk : fpar pr.nodes k = some p → leads pr k = true →
       ∃ b : Nat, n.bestChild = some b ∧ fpar pr.nodes b = some p ∧ leads pr b = true ∧ beats pr.nodes b k) :
-    PInv pr q k p n := by
+    ParInv pr q k p n := by
   obtain ⟨hF, hG⟩ := hI
   refine ⟨?_, ?_⟩
   · intro b hb hkb
@@ -327,10 +327,10 @@ theorem pinv_keep {pr q : PA} {k p : Nat} {n : Node} (hI : PInv pr q (k + 1) p n
         · exact Or.inr ⟨b', by omega, hb'p, hlb', hbeat⟩
 
 /-- the parent's links are set to the child `k` -/
-theorem pinv_toChild {pr q : PA} {k p : Nat} {parent child : Node} (hI : PInv pr q (k + 1) p parent)
+theorem parInv_toChild {pr q : PA} {k p : Nat} {parent child : Node} (hI : ParInv pr q (k + 1) p parent)
     (hchild : q.nodes[k]? = some child) (hl : leads pr k = true)
     (hbeat : ∀ b : Nat, parent.bestChild = some b → k + 1 ≤ b → beats pr.nodes k b) :
-    PInv pr q k p { parent with bestChild := some k, bestDesc := some (child.bestDesc.getD k) } := by
+    ParInv pr q k p { parent with bestChild := some k, bestDesc := some (child.bestDesc.getD k) } := by
   obtain ⟨hF, hG⟩ := hI
   refine ⟨?_, ?_⟩
   · intro b hb hkb
@@ -352,9 +352,9 @@ theorem pinv_toChild {pr q : PA} {k p : Nat} {parent child : Node} (hI : PInv pr
         · exact Or.inr ⟨b', by omega, hb'p, hlb', hbeat'⟩
 
 /-- the parent's links are cleared -/
-theorem pinv_toNone {pr q : PA} {k p : Nat} {parent : Node} (hI : PInv pr q (k + 1) p parent)
+theorem parInv_toNone {pr q : PA} {k p : Nat} {parent : Node} (hI : ParInv pr q (k + 1) p parent)
     (hl : leads pr k = false) (hst : ∀ b : Nat, parent.bestChild = some b → b ≤ k) :
-    PInv pr q k p { parent with bestChild := none, bestDesc := none } := by
+    ParInv pr q k p { parent with bestChild := none, bestDesc := none } := by
   obtain ⟨hF, hG⟩ := hI
   refine ⟨?_, ?_⟩
   · intro b hb _
@@ -369,10 +369,10 @@ theorem pinv_toNone {pr q : PA} {k p : Nat} {parent : Node} (hI : PInv pr q (k +
         · exact Or.inr ⟨b', by omega, hb'p, hlb', hbeat'⟩
 
 /-- The invariant after the indices `≥ k` have been processed: these nodes judge themselves correctly
-(`nodeLeads` = `leads`), and every parent satisfies `PInv`. -/
+(`nodeLeads` = `leads`), and every parent satisfies `ParInv`. -/
 structure J (pr q : PA) (k : Nat) : Prop where
   nl : ∀ (i : Nat) (n : Node), k ≤ i → q.nodes[i]? = some n → q.nodeLeads n = some (leads pr i)
-  par : ∀ (p : Nat) (n : Node), q.nodes[p]? = some n → PInv pr q k p n
+  par : ∀ (p : Nat) (n : Node), q.nodes[p]? = some n → ParInv pr q k p n
 
 /-- before the pass the invariant holds trivially -/
 theorem j_top {pr q : PA} (hq : WF q) (fr : Frame pr q) : J pr q q.nodes.length := by
@@ -459,17 +459,17 @@ theorem nl_at {pr q : PA} (hp : WF pr) (hq : WF q) (fr : Frame pr q) {k : Nat} (
     | none => simp [getNode_eq hq, hnb]
     | some d => simp
 
-theorem pinv_transfer {pr q q' : PA} {k p : Nat} {n : Node} (hag : ∀ i : Nat, k ≤ i → q'.nodes[i]? = q.nodes[i]?)
-    (h : PInv pr q k p n) : PInv pr q' k p n := by
+theorem parInv_transfer {pr q q' : PA} {k p : Nat} {n : Node} (hag : ∀ i : Nat, k ≤ i → q'.nodes[i]? = q.nodes[i]?)
+    (h : ParInv pr q k p n) : ParInv pr q' k p n := by
   refine ⟨?_, h.2⟩
   intro b hb hkb
   rw [hag b hkb]
   exact h.1 b hb hkb
 
 /-- a parent other than that of node `k` -/
-theorem pinv_other {pr q : PA} (hq : WF q) (fr : Frame pr q) {k p : Nat} {n : Node} (hn : q.nodes[p]? = some n)
-    (hI : PInv pr q (k + 1) p n) (hk : fpar pr.nodes k ≠ some p) : PInv pr q k p n := by
-  apply pinv_keep hI
+theorem parInv_other {pr q : PA} (hq : WF q) (fr : Frame pr q) {k p : Nat} {n : Node} (hn : q.nodes[p]? = some n)
+    (hI : ParInv pr q (k + 1) p n) (hk : fpar pr.nodes k ≠ some p) : ParInv pr q k p n := by
+  apply parInv_keep hI
   · intro e
     have := hq.bc_child p n k hn e
     rw [fr.fpar] at this
@@ -482,7 +482,7 @@ theorem j_step {pr q q' : PA} (hp : WF pr) (hq : WF q) (hq' : WF q') (fr : Frame
     (hk : ∀ p' : Nat, fpar pr.nodes k = some p' → p' = p)
     (hag : ∀ i : Nat, i ≠ p → q'.nodes[i]? = q.nodes[i]?)
     (hagk : ∀ i : Nat, k ≤ i → q'.nodes[i]? = q.nodes[i]?)
-    (hP : ∀ n' : Node, q'.nodes[p]? = some n' → PInv pr q k p n') : J pr q' k := by
+    (hP : ∀ n' : Node, q'.nodes[p]? = some n' → ParInv pr q k p n') : J pr q' k := by
   refine ⟨?_, ?_⟩
   · intro i n hki hn
     rw [hagk i hki] at hn
@@ -491,22 +491,22 @@ theorem j_step {pr q q' : PA} (hp : WF pr) (hq : WF q) (hq' : WF q') (fr : Frame
     · subst hik; exact nl_at hp hq fr hJ hn
     · exact hJ.nl i n (by omega) hn
   · intro p' n hn
-    apply pinv_transfer hagk
+    apply parInv_transfer hagk
     by_cases hpp : p' = p
     · subst hpp; exact hP n hn
     · rw [hag p' hpp] at hn
-      exact pinv_other hq fr hn (hJ.par p' n hn) (fun e => hpp (hk p' e))
+      exact parInv_other hq fr hn (hJ.par p' n hn) (fun e => hpp (hk p' e))
 
 /-- node `k` has no fork-choice parent -/
 theorem j_skip {pr q : PA} (hp : WF pr) (hq : WF q) (fr : Frame pr q) {k : Nat} (hJ : J pr q (k + 1))
     (hk : fpar pr.nodes k = none) : J pr q k :=
   j_step hp hq hq fr (Frame.refl q) (p := k) hJ (fun p' e => by rw [hk] at e; cases e) (fun _ _ => rfl)
-    (fun _ _ => rfl) (fun n' hn' => pinv_other hq fr hn' (hJ.par k n' hn') (by rw [hk]; simp))
+    (fun _ _ => rfl) (fun n' hn' => parInv_other hq fr hn' (hJ.par k n' hn') (by rw [hk]; simp))
 
 /-- the parent of node `k` keeps its links -/
 theorem j_keep {pr q : PA} (hp : WF pr) (hq : WF q) (fr : Frame pr q) {k p : Nat} {parent : Node}
     (hJ : J pr q (k + 1)) (hk : fpar pr.nodes k = some p) (hparent : q.nodes[p]? = some parent)
-    (hP : PInv pr q k p parent) : J pr q k :=
+    (hP : ParInv pr q k p parent) : J pr q k :=
   j_step hp hq hq fr (Frame.refl q) hJ (fun p' e => by rw [hk] at e; exact (Option.some.inj e).symm)
     (fun _ _ => rfl) (fun _ _ => rfl) (fun n' hn' => by rw [hparent] at hn'; cases hn'; exact hP)
 
@@ -515,7 +515,7 @@ theorem j_set {pr q : PA} (hp : WF pr) (hq : WF q) (fr : Frame pr q) {k p : Nat}
     (bc bd : Option Idx) (hJ : J pr q (k + 1)) (hk : fpar pr.nodes k = some p)
     (hparent : q.nodes[p]? = some parent)
     (hq' : WF (q.setNode p { parent with bestChild := bc, bestDesc := bd }))
-    (hP : PInv pr q k p { parent with bestChild := bc, bestDesc := bd }) :
+    (hP : ParInv pr q k p { parent with bestChild := bc, bestDesc := bd }) :
     J pr (q.setNode p { parent with bestChild := bc, bestDesc := bd }) k := by
   have hpk := hp.fpar_lt' k p hk
   have hpl : p < q.nodes.length := (List.getElem?_eq_some_iff.mp hparent).1
@@ -587,19 +587,19 @@ theorem j_maybeUpdate {pr q : PA} (hp : WF pr) (hs : SibDistinct pr) (hq : WF q)
       J pr q' k := by
     intro hl hb e
     subst e
-    exact j_set hp hq fr _ _ hJ hk hparent hw' (pinv_toChild hI hchild hl hb)
+    exact j_set hp hq fr _ _ hJ hk hparent hw' (parInv_toChild hI hchild hl hb)
   have toNone : leads pr k = false → (∀ b : Nat, parent.bestChild = some b → b ≤ k) →
       q' = q.setNode p { parent with bestChild := none, bestDesc := none } → J pr q' k := by
     intro hl hb e
     subst e
-    exact j_set hp hq fr _ _ hJ hk hparent hw' (pinv_toNone hI hl hb)
+    exact j_set hp hq fr _ _ hJ hk hparent hw' (parInv_toNone hI hl hb)
   have keep : parent.bestChild ≠ some k →
       (leads pr k = true → ∃ b : Nat, parent.bestChild = some b ∧ fpar pr.nodes b = some p ∧
         leads pr b = true ∧ beats pr.nodes b k) →
       q' = q → J pr q' k := by
     intro hne hb e
     subst e
-    exact j_keep hp hq fr hJ hk hparent (pinv_keep hI hne (fun _ => hb))
+    exact j_keep hp hq fr hJ hk hparent (parInv_keep hI hne (fun _ => hb))
   cases hbc : parent.bestChild with
   | none =>
     have hr := mu_none hq hchild hparent hcl hbc
